@@ -667,6 +667,9 @@ fn search(prop: &str, s: &mut Search) -> (usize, Option<Case>) {
 
 fn parse_case(txt: &str) -> Option<Case> {
     // minimal extraction from the JSON written by Case::json (possibly nested inside a replay file)
+    let norm: String = { let mut o = String::with_capacity(txt.len()); let mut prev = ' '; let mut in_str = false;
+        for ch in txt.chars() { if ch == '"' && prev != '\\' { in_str = !in_str; } if !in_str && ch.is_whitespace() { continue; } o.push(ch); prev = ch; } o };
+    let txt = norm.as_str();
     let i = txt.find("\"prop\":\"")?; let t = &txt[i..];
     let gs = |key: &str| -> Option<String> { let p = t.find(&format!("\"{key}\":\""))? + key.len() + 4; let e = t[p..].find('"')?; Some(t[p..p + e].to_string()) };
     let gn = |key: &str| -> Option<f64> { let p = t.find(&format!("\"{key}\":"))? + key.len() + 3; let e = t[p..].find(|ch: char| ch == ',' || ch == '}')?; t[p..p + e].trim().parse().ok() };
